@@ -160,7 +160,7 @@ Proof.
     rewrite keys_cons. cbn [rename_loop fst snd filter] in Hfr |- *.
     change (in_ns o (o', l, v)) with (ns_eqb o' o) in Hfr |- *.
     destruct (ns_eqb o' o) eqn:E; cbn [negb] in Hfr |- *.
-    + (* old namespace: popped and re-inserted at the end *)
+    + (* old namespace: popped, then appended last *)
       apply ns_eqb_eq in E. subst o'.
       assert (Hnd' := Hnd).
       rewrite keys_app in Hnd'. cbn [app] in Hnd'. rewrite keys_cons in Hnd'. cbn [fst] in Hnd'.
